@@ -55,9 +55,9 @@ def fill(claim, na):
     claim(
         "C05",
         "proof",
-        "Lean 4 theorems: RGE residuals of the model's scale-variation terms vanish over an arbitrary commutative Q-algebra; renormalisation re-expansion as polynomial identities with explicit remainders; key/switch lemmas on the executable model; the executable model is compared with the real compute_local (stubbed convolutions, integer operators)",
-        "For every choice of splitting kernels, coefficient functions, beta0, beta1: the (1,1), (2,1), (2,2) factorisation terms built by the model's sector_mapping make the muF-derivative vanish through a_s^2 (singlet with gluon mixing and the three non-singlet sectors); the ren_coeffs table is exactly the a_s(muF)->a_s(muR) re-expansion through a_s^3; switching a variation off removes exactly the entries carrying its log; intrinsic kernels never get a factorisation log. The same generic model, instantiated on matrices, reproduces the real compute_local tensors for every key on random configurations each run.",
-        TB + "Hypothesis `Products` (the convolved labels are products of their factors) is checked on Mellin moments of the real kernels; eko's projector algebra (how sector operators recombine) is taken from eko and exercised through the correspondence; muF terms beyond a_s^2 are a TODO in the source.",
+        "Lean 4 theorems: RGE residuals of the model's scale-variation terms vanish over an arbitrary commutative Q-algebra; renormalisation re-expansion as polynomial identities with explicit remainders; key/switch lemmas on the executable model; eko's flavour-space projectors (regenerated as exact rationals) decided to be matrix units and lifted to Mathlib matrices, giving the RGE on flavour x x-space with no hypothesis on the projectors; the executable model is compared with the real compute_local (stubbed convolutions, integer operators)",
+        "For every choice of splitting kernels, coefficient functions, beta0, beta1: the (1,1), (2,1), (2,2) factorisation terms built by the model's sector_mapping make the muF-derivative vanish through a_s^2 (singlet with gluon mixing and the three non-singlet sectors); the ren_coeffs table is exactly the a_s(muF)->a_s(muR) re-expansion through a_s^3; switching a variation off removes exactly the entries carrying its log; intrinsic kernels never get a factorisation log; with eko's own projectors for nf=3..6 the same three residuals vanish as operators on flavour (x) x space (fact_rge_eko). The same generic model, instantiated on matrices, reproduces the real compute_local tensors for every key on random configurations each run.",
+        TB + "Hypothesis `Products` (the convolved labels are products of their factors) is checked on Mellin moments of the real kernels; that DGLAP evolution in flavour space is sum_s pi_s (x) P_s is eko's convention; muF terms beyond a_s^2 are a TODO in the source.",
         "DESIGN.md 6/C05",
     )
     claim(
@@ -160,7 +160,7 @@ def fill(claim, na):
         "C04",
         "proof",
         "translator (Python ast -> Lean KExpr for the NLO kernels and, per live light class, the source expressions of its distribution coefficients; regenerated and Float-validated each run) + Lean 4 theorems over the reals (closed forms for all 0<z<1 and nf; exact sum-rule relations via Mathlib integrals) + numerical evaluation of closed forms and first moments on the real functions",
-        "PARTIAL for the sum rules. Proved on the terms regenerated from the source, for all 0<z<1 and all nf: the NLO quark and gluon coefficients of F2, FL, F3, g1 of all 15 (class, NLO) sites equal the published closed forms (regular parts and the delta / 1/(1-z)_+ / log(1-z)/(1-z)_+ coefficients, incl. -(pi^2/3+9/2)); every NLO site is classified and readable; the plus-distribution has no first moment; GLS(NLO)-Adler(NLO) = -3CF = -4 exactly; Bjorken(NLO)=GLS(NLO). Evaluated numerically on the real callables (all sites, nf=3..6, z from 1e-7 to 1-1e-8): closed forms to 1e-9; Adler (F2 nu-nubar non-singlet), GLS (F3 non-singlet) and Bjorken (g1 non-singlet) first moments at every available order against 0 resp. the Larin-Vermaseren series with per-order tolerances equal to the published accuracy of the parametrisations.",
-        TB + "The Adler value at NLO needs int_0^1 ln z/(1-z) = -pi^2/6 (not in Mathlib) and beyond NLO the coefficients are fitted parametrisations: those sum rules are numerical observations with tolerances (Adler 1e-9 / 2e-3 / 0.3; GLS, Bjorken 1e-9 / 3e-2 / 0.3), not theorems. CF=4/3, TR=1/2, pi are hypotheses (StdC). The light-by-light d_abc term of GLS lives in a separate flavour class and is not part of the non-singlet check.",
+        "PARTIAL for the sum rules beyond NLO. Proved on the terms regenerated from the source, for all 0<z<1 and all nf: the NLO quark and gluon coefficients of F2, FL, F3, g1 of all 15 (class, NLO) sites equal the published closed forms (regular parts and the delta / 1/(1-z)_+ / log(1-z)/(1-z)_+ coefficients, incl. -(pi^2/3+9/2)); every NLO site is classified and readable; the plus-distribution has no first moment; the regular part is integrable with integral 2CF(pi^2/3+9/2), so Adler(NLO) = 0, GLS(NLO) = Bjorken(NLO) = -3CF = -4 exactly (also stated for the regenerated kernels of every light F2/F3/g1 quark class; int_0^1 ln z/(1-z) = -pi^2/6 proved from the geometric series and the Basel sum). Evaluated numerically on the real callables (all sites, nf=3..6, z from 1e-7 to 1-1e-8): closed forms to 1e-9; Adler (F2 nu-nubar non-singlet), GLS (F3 non-singlet) and Bjorken (g1 non-singlet) first moments at every available order against 0 resp. the Larin-Vermaseren series with per-order tolerances equal to the published accuracy of the parametrisations.",
+        TB + "Beyond NLO the coefficients are fitted parametrisations: those sum rules are numerical observations with tolerances (Adler 1e-9 / 2e-3 / 0.3; GLS, Bjorken 1e-9 / 3e-2 / 0.3), not theorems. CF=4/3, TR=1/2, pi are hypotheses (StdC). The light-by-light d_abc term of GLS lives in a separate flavour class and is not part of the non-singlet check.",
         "DESIGN.md 6/C04",
     )
